@@ -165,6 +165,15 @@ CHECKS = {
         "traffic around every ping, scheduler choices and preemptions. Invalid settings must be refused before any network activity.",
         "Trusted: simkit virtual clock; peers answering later than T are not judged; unsolicited pongs are not generated for peers meant to be silent (indistinguishable from answers).",
     ),
+    "C15": (
+        "fault_enumeration",
+        "enumeration of all loss/failure outcome sequences up to length 3 x stop kind x dispatcher + Hypothesis-generated sequences, intervals, ping settings and close times in virtual time; oracle = predicted reconnect times and callback/transport invariants",
+        "Each connection attempt meets a generated outcome (refused, handshake rejected, established then EOF / reset / ping timeout / "
+        "server close frame); the attempt times seen by the simulated network must follow loss time + interval, success must fire "
+        "on_reconnect/on_open and deliver the next message, no on_close may occur in between, no second socket or ping thread may be "
+        "alive at any connect attempt, and after a server close frame or app.close() no further attempt may be made. Runs with the built-in loop and with an external dispatcher (rel surface).",
+        "Trusted: simkit virtual clock; FakeRel models rel's documented surface only; ping timeout / reset are not generated for the external loop (they escape into third-party code).",
+    ),
 }
 
 PENDING_REASON = "check not built yet in this work-in-progress commit (will be claimed once its generator/oracle is committed)"
